@@ -252,6 +252,7 @@ def eventTypes : List String := ["ping", "scte35"]
 def positionOk : Pos IsoClass → Bool
   | .num _ => true
   | .at .duration => false
+  | .at (.aware false) => false      -- `pos.utcoffset()` raises (823dec5)
   | .at _ => true
   | .nothing => false
 
@@ -524,6 +525,35 @@ def mediaStatus (w : MediaWorld) (parse : Except Exc Unit) : Nat :=
               match w.range with
               | .error () => 400
               | .ok st => st
+
+/-! ### the VOD first/last gate (`LiveMedia.calculate_media_segment_index`,
+media_requests.py:455-495, `Representation.calculate_first_and_last_segment_number` and
+`calculate_segment_number_and_time`, representation.py:497-525, and the index check of
+`generate_media_segment`, media_requests.py:175-176) -/
+
+/-- how a VOD media request addresses its segment -/
+inductive Addr where
+  | number (n : Int)
+  | time (t : Nat)
+deriving DecidableEq, Repr
+
+/-- the segment number of the request: `$Time$` → `(t + sd/4) // sd + start_number` -/
+def vodSegNum (sd sn : Nat) : Addr → Int
+  | .number n => n
+  | .time t => ((t + sd / 4) / sd : Nat) + (sn : Int)
+
+/-- `mod_segment = 1 + seg_num - start_number` -/
+def vodModSegment (sd sn : Nat) (a : Addr) : Int := 1 + vodSegNum sd sn a - sn
+
+/-- the lookup of a VOD request on a file with `n` media segments: `.refused` = the
+`ValueError` that becomes 404 (outside `first … last`, or index outside `1 … n`) -/
+def vodLookup (sd sn n : Nat) (a : Addr) : Call :=
+  let num := vodSegNum sd sn a
+  let first : Int := sn
+  let last : Int := (n : Int) + sn - 1
+  if num < first ∨ num > last then .refused
+  else if vodModSegment sd sn a < 1 ∨ vodModSegment sd sn a > n then .refused
+  else .ok
 
 /-- UTCTimeHandler.get: `calculate_options('live', args)` and nothing that can fail -/
 def timeStatus (parse : Except Exc Unit) : Nat :=
